@@ -248,6 +248,8 @@ def run_mdoc(c, out):
                 model[kept[p]][1] = True
         # after every step: table == model
         imgs = m.imgs
+        if not out.check(list(imgs.columns) == ["ZValue"] + keys + ["Removed"], f"mdoc_{o['op']}:keys_differ", lambda: f"{list(imgs.columns)}"):
+            return
         if not out.check(len(imgs) == len(model), f"mdoc_{o['op']}:row_count", f"{len(imgs)}"):
             return
         got_tags = [int(r["SubFramePath"].rsplit("_", 1)[1].split(".")[0]) for _, r in imgs.iterrows()]
